@@ -210,8 +210,9 @@ def run_case(case, R):
             shutil.rmtree(scratch, ignore_errors=True)
     elif k == "extra":
         specs = [sp for _, sp in space.wide_specs()] + [sp for _, sp in space.wide_array_specs()] + space.magnitude_specs()
+        specs += space.nonfinite_specs()
         ndense = len(specs)
-        specs += [sp for _, sp in space.dense_specs()]
+        specs += [sp for _, sp in space.dense_specs()] + [sp for _, sp in space.long_array_specs()]
         for i, sp in enumerate(specs):
             p = build_checked(sp)
             redundant = any(not numpy.any(numpy.asarray(c)) and any(e) for e, c in zip(p.exponents, p.coefficients))
